@@ -80,6 +80,7 @@ func runC13(c *Ctx) {
 	k.r7()
 	c13R8(c, p)
 	c13R9(c, p)
+	poolUseAfterPut(c, p, "C13.R10", map[string]bool{"uci": true, "search": true})
 	if c.Tier == "thorough" {
 		if s := c.need("spsa"); s != nil {
 			if k2 := c13New(c, s); k2 != nil {
